@@ -385,6 +385,8 @@ type buildOpts struct {
 	Between func()
 	// GCAfter: the process collects garbage on its Project as soon as Run has returned.
 	GCAfter bool
+	// SecondPlain: the second run (SecondRun) is not forced although the first was.
+	SecondPlain bool
 }
 
 // process runs one simulated dawn process: Load, then (optionally) GC and/or Run.
@@ -445,7 +447,7 @@ func (w *world) process(name string, pc procCfg, bo buildOpts, stepHook func(ste
 				bo.Between()
 				w.runNo = 2
 			}
-			res.RunErr = proj.Run(l, &RunOptions{Always: bo.Always, DryRun: bo.DryRun})
+			res.RunErr = proj.Run(l, &RunOptions{Always: bo.Always && !bo.SecondPlain, DryRun: bo.DryRun})
 		}
 		if bo.GCAfter {
 			res.GCErr = proj.GC()
